@@ -16,3 +16,6 @@ def check(rep, tier):
     rep.run(rules_numeric.run_zero_cotangent, rep)
     from contracts import diffops
     rep.run(diffops.run_ops, rep, tier)
+    from contracts import programs_exact, tracer_trace
+    rep.run(programs_exact.run_nest, rep)
+    rep.run(tracer_trace.run, rep, tier, only=("TR-result",))
